@@ -352,6 +352,23 @@ def recursion(ctx, facts, roles, reach, extra, tag):
                       "the evaluator recursion re-enters the parser on a value that is not rule text (%s): recursion depth is no longer bounded by the nesting of the rule" % ", ".join(s.ident() for s in dirty[:3]),
                       where=dirty[0].body.where(dirty[0].bi) if dirty else "", fn=dirty[0].body.key if dirty else None, nontrivial=True,
                       sample={"cycle": "evaluator", "functions": len(cs), "witness": "all %d parser call sites receive rule text only (C04 K1): each nested parse is a strict sub-term of the rule" % len(s1)})
+            # that witness speaks about the cycles that go through the parser or an evaluate function; a cycle inside the
+            # component that avoids both (a helper calling itself on the rest of an operand list, say) needs its own
+            rest = [k for k in comp if k not in evaluator_keys]
+            rset = set(rest)
+            rsucc = lambda k: [x for x in succ(k) if x in rset]
+            for sub in [c for c in sccs(rest, rsucc) if len(c) > 1 or c[0] in rsucc(c[0])]:
+                ss = set(sub)
+                sroots = sorted(k for k in ss if "::{closure#" not in k)
+                w = None
+                if len(sroots) == 1:
+                    fb = facts.body(sroots[0])
+                    w = structural_descent(facts, roles, fb, ss) or variant_descent(facts, roles, fb, ss)
+                elif sroots:
+                    w = structural_descent_mutual(facts, roles, [facts.body(r) for r in sroots], ss)
+                ctx.check(w is not None, "K2.recursion", "recursion inside the evaluator cycle that bypasses parser and evaluator: %s (%s)" % (",".join(role_name(roles, facts.body(r)) for r in sroots[:3]), tag),
+                          "%s recurse(s) without going through the parser or an evaluate function and without a descent into the JSON tree: the depth is not bounded by the nesting of the rule (e.g. it grows with the length of an operand list)" % sorted(sroots),
+                          where=facts.body(sroots[0]).where() if sroots else "", fn=sroots[0] if sroots else None, nontrivial=True)
             continue
         if len(roots) != 1:
             w = structural_descent_mutual(facts, roles, [facts.body(r) for r in roots], cs)
